@@ -66,7 +66,7 @@ def arm():
 
 def floors(tier):
     return {'rounds': 10000, 'rounds_0_proposals': 1500, 'rounds_1_proposal': 3000, 'rounds_conflict': 100, 'clipped': 300, 'standalone_rounds': 2000,
-            'simulations': 300, 'conflict_runs': 60, 'continued_runs_with_control': 60, 'ensure_evaluations': 8000, 'zero_proposals': 100, 'set:nontrivial': 40}
+            'simulations': 300, 'conflict_runs': 60, 'continued_runs_with_control': 60, 'reruns_with_same_control': 30, 'ensure_evaluations': 8000, 'zero_proposals': 100, 'set:nontrivial': 40}
 
 
 def n_cases(tier):
@@ -256,6 +256,10 @@ def simulation(ctx, i, rng, case):
     spec, n, kinds = make_spec(rng, i)
     dt = spec['schedule'][0]['dt']
     continued = i % 4 == 1
+    rerun = i % 8 == 7
+    if rerun:
+        # the same control object used again after reset (the arbitration must not remember the first history)
+        spec['schedule'] = [{'op': 'run', 'dt': dt, 'T': GEN.mulq(dt, n)}, {'op': 'reset'}, {'op': 'reapply'}, {'op': 'run', 'dt': dt, 'T': GEN.mulq(dt, max(3, n // 2))}]
     if continued:
         # first segment without control, second with it (the control is an argument of each run call)
         n1 = rng.randint(3, max(4, n // 2))
@@ -271,7 +275,9 @@ def simulation(ctx, i, rng, case):
     ctx.count('simulations')
     nr = len(spec['rules'])
     pwm = tr.pwm
-    log_pos = 0
+    log_pos = getattr(b, 'rule_log_mark', 0)
+    if rerun and getattr(b, 'rule_log_mark', None) is not None:
+        ctx.count('reruns_with_same_control')
     k = 0                      # instant index being arbitrated
     outcome_pattern = []
     for r in runs:
